@@ -121,6 +121,29 @@ CLAIMS = {
     note="Undecided: the metamorphic equality with the filtered input (value-level).",
     technique="handler partition by policy atoms, CFG reachability of stores/returns per partition, provenance of the preserved element",
     ref="DESIGN.md 3/C11"),
+ "C08": dict(
+    text="Static wrapper discipline (the binding arithmetic itself is undecided): every wrapper kind creates a per-call "
+         "context, resolves forward references before get_params, calls get_params with identical arguments, parses the "
+         "result channel exactly under parse_result, wrap() dispatches each function kind with all settings (R08a); the "
+         "wrapped function only receives get_params' result and parse_params flushes before returning (R08b=R04e); with "
+         "declared yield/send/return types the raw item / sent value / return value cannot reach the yield / send / "
+         "return (R08c); the value returned by send()/asend() is used (R08d).",
+    note="Undecided (the core): positional index mapping, alias equivalence, *args offsets, defaults - needs generated "
+         "signatures against inspect.Signature.bind.",
+    technique="sibling agreement of wrapper call sequences, dominance, reaching definitions avoiding waiver branches, "
+              "unused-result lint on generator protocol calls",
+    ref="DESIGN.md 3/C08"),
+ "C17": dict(
+    text="Static resolution-before-use: resolve_forward_refs unconditionally dominates parse_data / get_params at all "
+         "five entries (R17a); after a resolution every field (input and output type), the addition type, *args and "
+         "return types are re-resolved, nested types recursively (R17b); the late re-parse applies the constraints, key, "
+         "pending table and globals stored with the pending reference (R17c); apply/__call__ dereference an evaluated "
+         "ForwardRef before dispatch and raise for an unevaluated one (R17d); local-scope resets happen after "
+         "re-resolution and classes can resolve their own name (R17e).",
+    note="Undecided (the core): behavioural equivalence with the directly written declaration for every order of "
+         "definition and first use.",
+    technique="dominance / must-pass-through at entries, argument-flow checks on the late re-parse, statement order on the CFG",
+    ref="DESIGN.md 3/C17"),
 }
 
 NOT_APPLICABLE = {
